@@ -16,7 +16,7 @@ func init() {
 
 func drawC08(t *rapid.T, x *X) *Case {
 	c := drawBase(t, x, 40)
-	c.Plan = drawPlan(t, x.G.Spec, 2, true, false)
+	c.Plan = drawPlan(t, x.G.Spec, 5, true, false)
 	c.Opts.Memoize = gspec.U(t, 2, "memo") == 0
 	if x.G.Spec.HasState && gspec.U(t, 2, "initstate") == 0 {
 		c.Opts.InitInts = map[string]int{"k1": gspec.U(t, 4, "initk1")}
